@@ -25,6 +25,11 @@ impl<T> Stream for ShellStream<T> {
         self: std::pin::Pin<&mut Self>,
         cx: &mut std::task::Context<'_>,
     ) -> Poll<Option<Self::Item>> {
+        #[cfg(crux_verif)]
+        let _verif_scope = crate::verif::lock_scope(
+            "shell_stream",
+            Arc::as_ptr(&self.shared_state).cast::<()>() as usize,
+        );
         let mut shared_state = self.shared_state.lock().unwrap();
 
         if let Some(send_request) = shared_state.send_request.take() {
@@ -66,6 +71,11 @@ where
                 return Err(());
             };
 
+            #[cfg(crux_verif)]
+            let _verif_scope = crate::verif::lock_scope(
+                "shell_stream",
+                Arc::as_ptr(&shared_state).cast::<()>() as usize,
+            );
             let mut shared_state = shared_state.lock().unwrap();
 
             sender.send(result);
